@@ -46,10 +46,12 @@ impl Monitor for C15 {
             ("calls_spanning_a_rollover", tier.pick(3_000, 60_000)),
             ("calls_reporting_zero_with_empty_trace", tier.pick(5_000, 100_000)),
             ("calls_whose_gc_met_an_injected_unlink_failure", tier.pick(2_000, 40_000)),
+            ("calls_whose_writes_were_served_short", tier.pick(20_000, 400_000)),
+            ("calls_with_a_whole_block_write_served_short", tier.pick(1_000, 20_000)),
         ]
     }
     fn rule(&self) -> String {
-        "case = one generated history (align / gc / idle / bigname / mixed profiles); under Always(Flush|FlushAndFsync) evaluation = one create/delete/append/truncate call whose reported wal_bytes_written must equal the summed length of write-family syscalls on WAL files inside the call's trace window (and be 0 exactly when there is none) - one truncate/delete call in five runs with the first unlink of its window failing with EACCES: if the call still returns Ok its count must be right (an Err is not a C15 subject); under lazy policies the running sum of reported bytes must equal the running sum of traced bytes at every point where the write buffer is known to be empty (after create_queue, delete_queue, explicit persist, and at shutdown); distinct_nontrivial = distinct (call kind, bytes left in block before the call, padding seen, files touched, GC records) tuples".into()
+        "case = one generated history (align / gc / idle / bigname / mixed profiles); under Always(Flush|FlushAndFsync) evaluation = one create/delete/append/truncate call whose reported wal_bytes_written must equal the summed length of write-family syscalls on WAL files inside the call's trace window (and be 0 exactly when there is none) - one truncate/delete call in five runs with the first unlink of its window failing with EACCES: if the call still returns Ok its count must be right (an Err is not a C15 subject), and one append in six with every write(2) of its window served short (half the bytes, no error); under lazy policies the running sum of reported bytes must equal the running sum of traced bytes at every point where the write buffer is known to be empty (after create_queue, delete_queue, explicit persist, and at shutdown); distinct_nontrivial = distinct (call kind, bytes left in block before the call, padding seen, files touched, GC records) tuples".into()
     }
     fn assumptions(&self) -> Vec<String> {
         vec![
@@ -125,6 +127,12 @@ impl Monitor for C15 {
             if unlink_fault {
                 crate::shim::fault(crate::shim::CL_UNLINK, 1, libc::EACCES, false);
             }
+            // one append in six meets a kernel that serves every write(2) short (half of what
+            // was asked, no error): legal, and the bytes really written must still be counted
+            let short_writes = exact && !unlink_fault && matches!(op, Op::Append { .. }) && rng.chance(1, 6);
+            if short_writes {
+                crate::shim::fault_short_writes(1);
+            }
             let st = d.apply(op);
             let unlink_failed = unlink_fault && st.events.iter().any(|e| matches!(e, Ev::Unlink { err, .. } if *err != 0));
             if unlink_failed {
@@ -140,6 +148,12 @@ impl Monitor for C15 {
                 return;
             }
             let (traced, nwrites) = wal_write_bytes(&st.events);
+            if short_writes && st.events.iter().any(|e| matches!(e, Ev::Write { data, req, .. } if (data.len() as u64) < *req)) {
+                acc.count("calls_whose_writes_were_served_short");
+                if st.events.iter().any(|e| matches!(e, Ev::Write { req, .. } if *req >= 32_768)) {
+                    acc.count("calls_with_a_whole_block_write_served_short");
+                }
+            }
             let reported = st.outcome.bytes().unwrap_or(0);
             reported_sum += reported;
             traced_sum += traced;
@@ -177,7 +191,7 @@ impl Monitor for C15 {
                 ));
                 if reported != traced {
                     acc.violation(
-                        format!("C15/reported-{}-traced/{}{}{}{}", if reported < traced { "less-than" } else { "more-than" }, st.op.kind(), if padded { "/with-padding" } else { "" }, if has_unlink { "/with-gc" } else { "" }, if unlink_failed { "/unlink-failure-injected" } else { "" }),
+                        format!("C15/reported-{}-traced/{}{}{}{}", if reported < traced { "less-than" } else { "more-than" }, st.op.kind(), if padded { "/with-padding" } else { "" }, if has_unlink { "/with-gc" } else { "" }, if unlink_failed { "/unlink-failure-injected" } else if short_writes { "/writes-served-short" } else { "" }),
                         case,
                         json!({
                             "history": d.history_json(300), "call": st.op.to_json(), "outcome": st.outcome.to_json(),
